@@ -469,6 +469,17 @@ static void engine_op(int argc, char **argv)
       free(bytes);
       obs("ret=%d", r);
     }
+    else if((strcmp(op, "btextf") == 0 || strcmp(op, "btextc") == 0) && argc == 5) {
+      /* the same text through the other entry points of put_text: textf_at (put_vtextf, both the 64-byte stack
+       * buffer and rb->tmp) and goto + textn (virtual cursor) */
+      unsigned char *bytes; long n = hex_decode(argv[4], &bytes);
+      if(n < 0) { obs("bad-op"); return; }
+      int r;
+      if(op[5] == 'f') r = tickit_renderbuffer_textf_at(rb, A(2), A(3), "%s", (char *)bytes);
+      else { tickit_renderbuffer_goto(rb, A(2), A(3)); r = tickit_renderbuffer_textn(rb, (char *)bytes, n); }
+      free(bytes);
+      obs("ret=%d", r);
+    }
     else if(strcmp(op, "berase") == 0 && argc == 5) { tickit_renderbuffer_erase_at(rb, A(2), A(3), A(4)); obs("ok"); }
     else if(strcmp(op, "bskip") == 0 && argc == 5) { tickit_renderbuffer_skip_at(rb, A(2), A(3), A(4)); obs("ok"); }
     else if(strcmp(op, "bchar") == 0 && argc == 5) { tickit_renderbuffer_char_at(rb, A(2), A(3), A(4)); obs("ok"); }
